@@ -16,7 +16,8 @@ import (
 
 // NG describes one rule of the property's shape: prefix body{*?,+?} terminator.
 type NG struct {
-	Rule   int    // index in the (single) mode
+	Mode   int    `json:",omitempty"` // index of the rule's mode (second part only; 0 = default mode)
+	Rule   int    // index in its mode
 	Prefix string // literal prefix (1..3 code points); "" when PrefixSet is used
 	PSet   []lexm.Rng
 	Body   []*lexm.Expr // alternatives, each a class or '.'
@@ -28,6 +29,7 @@ type Case struct {
 	S      *lexm.Spec
 	NGs    []NG
 	Inputs [][]byte
+	Mixed  bool   `json:",omitempty"` // second part (mixed_test.go): greedy rules sharing a prefix, mode actions
 	Lox    string `json:",omitempty"`
 	Detail string `json:",omitempty"`
 }
@@ -343,6 +345,9 @@ type verdict struct {
 }
 
 func eval(run *ev.Run, cases []*Case, count bool) ([]verdict, error) {
+	if len(cases) > 0 && cases[0].Mixed {
+		return evalMixed(run, cases, count)
+	}
 	lc := make([]*lbatch.Case, len(cases))
 	for i, c := range cases {
 		c.Lox = c.S.Lox()
@@ -464,7 +469,7 @@ func TestC08(t *testing.T) {
 			if !vs[i].has {
 				continue
 			}
-			fc := &Case{S: c.S, NGs: c.NGs, Inputs: c.Inputs, Lox: c.Lox}
+			fc := &Case{S: c.S, NGs: c.NGs, Inputs: c.Inputs, Lox: c.Lox, Mixed: c.Mixed}
 			detail := vs[i].detail
 			if vs[i].bad != nil {
 				fc.Inputs = [][]byte{vs[i].bad}
@@ -477,6 +482,47 @@ func TestC08(t *testing.T) {
 			return
 		}
 	}
+	// second part: greedy rules sharing a prefix with the non-greedy rule, mode actions on non-greedy rules
+	n2 := run.N(240, 4000)
+	for done := 0; done < n2; done += batch {
+		var cases []*Case
+		want := min(batch, n2-done)
+		fc := run.Check(fmt.Sprintf("mixed-collect-%d", done), want, 1, func(rt *rapid.T, fail ev.FailFunc) {
+			cases = append(cases, genMixed(rt, 40))
+		})
+		if fc != nil {
+			run.HarnessError("collect failed: %s\n%s", fc.Msg, fc.Log)
+		}
+		vs, err := eval(run, cases, true)
+		if err != nil {
+			run.HarnessError("%v", err)
+		}
+		for i, c := range cases {
+			run.Class("mixed:specs")
+			if len(c.S.Modes) > 1 {
+				run.Class("mixed:non-greedy-rule-with-mode-action")
+			}
+			if i < 1 {
+				run.Sample("mixed-case", map[string]any{"lox": c.Lox, "inputs": len(c.Inputs), "first": string(c.Inputs[0])})
+			}
+			if !vs[i].has {
+				continue
+			}
+			fc := &Case{S: c.S, NGs: c.NGs, Inputs: c.Inputs, Lox: c.Lox, Mixed: true}
+			detail := vs[i].detail
+			if vs[i].bad != nil {
+				fc.Inputs = [][]byte{vs[i].bad}
+				fc = shrinkCase(run, fc)
+				if v2, err := eval(run, []*Case{fc}, false); err == nil && v2[0].has {
+					detail = v2[0].detail
+				}
+			}
+			report(fc, detail)
+			return
+		}
+	}
+	run.RequireClass("mixed:non-greedy-rule-with-mode-action", 20)
+	run.RequireClass("mixed:greedy-match-inside-a-repetition", 100)
 	run.RequireClass("rules:+?", 50)
 	run.RequireClass("rules:*?", 50)
 	_ = loxb.Front1
@@ -490,8 +536,11 @@ func shrinkCase(run *ev.Run, c *Case) *Case {
 		for size := len(in) / 2; size >= 1; size /= 2 {
 			for lo := 0; lo+size <= len(in); lo += size {
 				n := append(append([]byte(nil), in[:lo]...), in[lo+size:]...)
-				out = append(out, &Case{S: c.S, NGs: c.NGs, Inputs: [][]byte{n}})
+				out = append(out, &Case{S: c.S, NGs: c.NGs, Inputs: [][]byte{n}, Mixed: c.Mixed})
 			}
+		}
+		if c.Mixed {
+			return out
 		}
 		// drop a greedy rule (indices of NG rules shift)
 		for ri := range c.S.Modes[0].Rules {
